@@ -42,46 +42,46 @@ func checkC03(c *Ctx, r *Report) {
 			"(*lzhuf.Reader).decodeChar": treeWhy,
 		},
 		skipFns: map[string]string{
-			"lzhuf.newLZHUFF":              "input-independent initialisation of the tree (see C08)",
-			"(*lzhuf.lzhuf).InsertNode":    encWhy,
-			"(*lzhuf.lzhuf).DeleteNode":    encWhy,
-			"(*lzhuf.lzhuf).InitTree":      encWhy,
-			"(*lzhuf.Writer).Write":        encWhy,
-			"(*lzhuf.Writer).Close":        encWhy,
-			"(*lzhuf.Writer).advance":      encWhy,
-			"(*lzhuf.Writer).encode":       encWhy,
-			"(*lzhuf.Writer).encodeEnd":    encWhy,
-			"(*lzhuf.Writer).encodeChar":   encWhy,
+			"lzhuf.newLZHUFF":                "input-independent initialisation of the tree (see C08)",
+			"(*lzhuf.lzhuf).InsertNode":      encWhy,
+			"(*lzhuf.lzhuf).DeleteNode":      encWhy,
+			"(*lzhuf.lzhuf).InitTree":        encWhy,
+			"(*lzhuf.Writer).Write":          encWhy,
+			"(*lzhuf.Writer).Close":          encWhy,
+			"(*lzhuf.Writer).advance":        encWhy,
+			"(*lzhuf.Writer).encode":         encWhy,
+			"(*lzhuf.Writer).encodeEnd":      encWhy,
+			"(*lzhuf.Writer).encodeChar":     encWhy,
 			"(*lzhuf.Writer).encodePosition": encWhy,
-			"(*lzhuf.Writer).putCode":      encWhy,
-			"lzhuf.NewWriter":              encWhy,
-			"lzhuf.NewB2Writer":            encWhy,
-			"lzhuf.crc":                    encWhy,
+			"(*lzhuf.Writer).putCode":        encWhy,
+			"lzhuf.NewWriter":                encWhy,
+			"lzhuf.NewB2Writer":              encWhy,
+			"lzhuf.crc":                      encWhy,
 		},
 		exceptions: map[string]string{
-			"(*lzhuf.Reader).Read|index d.z.textBuf[d.state.r]": "window cursor masked with N-1 after every increment (rule C08-window)",
-			"(*fbb.Session).writeProposalsAnswer|index proposals[idx]":          "idx comes from the slice 'unanswered', which only ever receives indices produced by ranging over this very 'proposals' slice a few lines above",
+			"(*lzhuf.Reader).Read|index d.z.textBuf[d.state.r]":                  "window cursor masked with N-1 after every increment (rule C08-window)",
+			"(*fbb.Session).writeProposalsAnswer|index proposals[idx]":           "idx comes from the slice 'unanswered', which only ever receives indices produced by ranging over this very 'proposals' slice a few lines above",
 			"(*fbb.Session).writeProposalsAnswer|index proposals[unansweredIdx]": "same: elements of 'unanswered' are indices of 'proposals'",
-			"(*fbb.Session).writeProposalsAnswer|index answers[answerIdx]":      "handler contract: BatchedInboundHandler.GetInboundAnswers returns one answer per proposal it was given (local code, not remote input)",
-			"(*fbb.Message).ReadFrom|index m.files[i]":                          "m.files was made with len(m.Header[File]) two lines above and i ranges over that same header slice; nothing modifies the header in between",
-			"mailbox.LoadMessageDir|index file.Name()[0]":                       "operating system contract: directory entries have non-empty names",
-			"(fbb.ByDate).Swap|index d[i]":            "sort.Interface contract: indices passed by package sort are in range",
-			"(fbb.ByDate).Swap|index d[j]":            "sort.Interface contract",
-			"(fbb.ByDate).Less|index d[i]":            "sort.Interface contract",
-			"(fbb.ByDate).Less|index d[j]":            "sort.Interface contract",
-			"(fbb.bySize).Swap|index s[i]":            "sort.Interface contract",
-			"(fbb.bySize).Swap|index s[j]":            "sort.Interface contract",
-			"(fbb.bySize).Less|index s[i]":            "sort.Interface contract",
-			"(fbb.bySize).Less|index s[j]":            "sort.Interface contract",
-			"(fbb.byPrecedence).Swap|index s[i]":      "sort.Interface contract",
-			"(fbb.byPrecedence).Swap|index s[j]":      "sort.Interface contract",
-			"(fbb.byPrecedence).Less|index s[i]":      "sort.Interface contract",
-			"(fbb.byPrecedence).Less|index s[j]":      "sort.Interface contract",
+			"(*fbb.Session).writeProposalsAnswer|index answers[answerIdx]":       "handler contract: BatchedInboundHandler.GetInboundAnswers returns one answer per proposal it was given (local code, not remote input)",
+			"(*fbb.Message).ReadFrom|index m.files[i]":                           "m.files was made with len(m.Header[File]) two lines above and i ranges over that same header slice; nothing modifies the header in between",
+			"mailbox.LoadMessageDir|index file.Name()[0]":                        "operating system contract: directory entries have non-empty names",
+			"(fbb.ByDate).Swap|index d[i]":                                       "sort.Interface contract: indices passed by package sort are in range",
+			"(fbb.ByDate).Swap|index d[j]":                                       "sort.Interface contract",
+			"(fbb.ByDate).Less|index d[i]":                                       "sort.Interface contract",
+			"(fbb.ByDate).Less|index d[j]":                                       "sort.Interface contract",
+			"(fbb.bySize).Swap|index s[i]":                                       "sort.Interface contract",
+			"(fbb.bySize).Swap|index s[j]":                                       "sort.Interface contract",
+			"(fbb.bySize).Less|index s[i]":                                       "sort.Interface contract",
+			"(fbb.bySize).Less|index s[j]":                                       "sort.Interface contract",
+			"(fbb.byPrecedence).Swap|index s[i]":                                 "sort.Interface contract",
+			"(fbb.byPrecedence).Swap|index s[j]":                                 "sort.Interface contract",
+			"(fbb.byPrecedence).Less|index s[i]":                                 "sort.Interface contract",
+			"(fbb.byPrecedence).Less|index s[j]":                                 "sort.Interface contract",
 		},
 		fatalIsOK: map[string]string{
 			"fbb.NewProposal|panic panic(err)": "raised only if compressing a LOCAL outbound message into an in-memory buffer fails; not reachable with remote bytes",
 			"(*mailbox.DirHandler).SetSent|fatal log.Fatalf(\"Unable to move %s to %s: %s\", oldPath, newPath, err)": "the trigger is the state of a local outbox file (rename of out/<MID>.b2f fails), not bytes from the remote",
-			"fbb.NewFile|panic panic(\"Empty filename is not allowed\")": "guards local API misuse (NewFile(\"\")); ReadFrom builds File values directly and never calls NewFile",
+			"fbb.NewFile|panic panic(\"Empty filename is not allowed\")":                                             "guards local API misuse (NewFile(\"\")); ReadFrom builds File values directly and never calls NewFile",
 		},
 	}
 	// calls through func-typed fields
